@@ -532,11 +532,20 @@ fn two_point_coverage_long(ctx: &mut Ctx) {
             ctx.note_nontrivial(crate::fnv(&format!("covlong{bits}{len}")));
             ctx.add_label(sub, &format!("{name} len {len}: segments at start {at_start}, at end {at_end}, empty {empty}, inside {inside}"), 1);
             if failure.is_none() {
-                let missing = [("segment-never-touches-start", at_start), ("segment-never-touches-end", at_end), ("empty-segment-never-occurs", empty), ("segment-never-occurs", inside)];
-                if let Some((aspect, _)) = missing.iter().find(|(_, k)| *k == 0) {
+                // stated assumption (as for the short lengths): every single segment has probability >= 1/(len+1)^2.
+                // The classes "touches the start" / "touches the end" hold len segments each; the empty segment is a
+                // single outcome, so it is only demanded where the assumption makes its absence a 1e-13 event.
+                let expect_empty = n_seeds as f64 / ((len + 1) * (len + 1)) as f64;
+                let missing = [
+                    ("segment-never-touches-start", at_start, true),
+                    ("segment-never-touches-end", at_end, true),
+                    ("empty-segment-never-occurs", empty, expect_empty >= 30.0),
+                    ("segment-never-occurs", inside, true),
+                ];
+                if let Some((aspect, _, _)) = missing.iter().find(|(_, k, demanded)| *k == 0 && *demanded) {
                     failure = Some(Fail::new(
                         format!("{name}/{aspect}"),
-                        format!("over {n_seeds} seeded crossovers of {len}-gene parents: segments starting at 0: {at_start}, ending at {len}: {at_end}, empty: {empty}, strictly inside: {inside}; each class has probability >= 1/{} under uniform cut points", len + 1),
+                        format!("over {n_seeds} seeded crossovers of {len}-gene parents: segments starting at 0: {at_start}, ending at {len}: {at_end}, empty: {empty}, strictly inside: {inside}; assuming every single segment has probability >= 1/{}", (len + 1) * (len + 1)),
                     ));
                 }
             }
